@@ -1999,6 +1999,9 @@ class LazyStackedTensorDict(TensorDictBase):
             raise ValueError(
                 "Cannot pass other arguments to LazyStackedTensorDict.apply when inplace=True."
             )
+        if out is not None and is_tensorclass(out):
+            # a lazily stacked tensorclass: write into its tensordict (as _apply_nest does)
+            out = out._tensordict
         if out is not None:
             if not isinstance(out, LazyStackedTensorDict):
                 raise ValueError(
